@@ -86,7 +86,7 @@ def oracle_history(launches):
 # ------------------------------------------------------------------ generation
 def relaunches(rng, quick):
     """1-3 further launches of the same script; all but the last may die too."""
-    k = rng.choice([1, 2] if quick else [1, 2, 3])
+    k = rng.choice([1, 1, 1, 2] if quick else [1, 2, 3])
     out = []
     for j in range(k):
         l = dict(mode=rng.choice(MODES + ["ok", "ok"]))
@@ -150,7 +150,9 @@ def run(c: Check):
             for n in sorted(ns):
                 for sig in SIGNALS:
                     if c.quick and n % 4 != off and sig == "KILL":
-                        continue
+                        continue  # the extra body points are there for the termination signals
+                    if c.quick and r["prefix"] != "fresh" and sig != SIGNALS[(n // 4) % 3]:
+                        continue  # quick tier: one signal per line on the two other initial directories
                     cases.append(dict(kind="sweep", prefix=r["prefix"], mode=r["mode"],
                                       launches=[dict(mode=m) for m in PREFIXES[r["prefix"]]]
                                       + [dict(mode=r["mode"], sig=sig, n=n)] + relaunches(c.rng, c.quick)))
